@@ -122,9 +122,29 @@ def finalised_everywhere(R, rnd):
     """SPEC stream on the implementation alone (operator tables and hand-built results are not in the model): EVERY class
     instance reachable through fields, operator nodes, lists, tuples and dict values has a finalised span with the
     offsets, lines and columns computed here independently from the text."""
+    import ast
     import sys
     sys.path.insert(0, core.REPO)
     from sourcer import Grammar
+    # the tie of C10_every_instance_finalised to the code: the runtime's _finalize_parse_info converts spans inside
+    # `for node in visit(nodes)` and nowhere else (visit itself is tied to Visit.v by C15's correspondence)
+    src = Grammar('start = "a"', include_source=True)._source_code
+    fn = [n for n in ast.walk(ast.parse(src)) if isinstance(n, ast.FunctionDef) and n.name == '_finalize_parse_info']
+    R.count('finalise-walk', 'structure', nontrivial=True)
+    shape = 'missing'
+    if fn:
+        loops = [n for n in ast.walk(fn[0]) if isinstance(n, ast.For) and isinstance(n.iter, ast.Call)
+                 and isinstance(n.iter.func, ast.Name) and n.iter.func.id == 'visit'
+                 and [getattr(a, 'id', None) for a in n.iter.args] == ['nodes']]
+        stores = [n for n in ast.walk(fn[0]) if isinstance(n, ast.Attribute) and n.attr == 'position_info' and isinstance(n.ctx, ast.Store)]
+        inside = [n for lp in loops for n in ast.walk(lp) if isinstance(n, ast.Attribute) and n.attr == 'position_info' and isinstance(n.ctx, ast.Store)]
+        whiles = [n for n in ast.walk(fn[0]) if isinstance(n, ast.While)]
+        shape = f'loops over visit(nodes): {len(loops)}, stores of position_info: {len(stores)}, of which inside the loop: {len(inside)}, while loops: {len(whiles)}'
+    want = 'loops over visit(nodes): 1, stores of position_info: 1, of which inside the loop: 1, while loops: 0'
+    if shape != want:
+        R.disagree('finalise-walk', {'function': '_finalize_parse_info of the generated runtime'}, shape, want)
+    else:
+        R.traces += 1
     for label, desc in TABLE_GRAMMARS:
         try:
             g = Grammar(desc)
